@@ -9,7 +9,8 @@ Binding: replay of one history per distinct abstract state of the generation con
 a parked snapshot, a parked compaction and reopen) on a real tsdb.Shard; reads after every step compared with the model.
 A divergence is attributed to F1 only if the driver's predicate `delete_between_snapshot_begin_and_replace` holds for it
 (resurrected points only, each in snapshot content /\\ deleted range of a delete in flight inside that snapshot's
-begin..replace window); any other resurrection, loss or change is a VIOLATION."""
+begin..replace window), and to F1b only if `series_dropped_while_points_in_snapshot` holds (a whole series reads empty and
+every point it should have is in the content of such a snapshot); any other resurrection, loss or change is a VIOLATION."""
 import importlib.util
 import os
 
@@ -64,7 +65,7 @@ def run(ctx):
 
     # 3. behaviours: one history per distinct abstract state, deletes interleaved with snapshot / compaction / reopen
     g = ctx.tlc_must_pass('TSMEngine', gen_cfg, timeout=sc * (100 if quick else 900), dump=True)
-    hs, stats = T.histories(ctx, g.dump_path, want=150 if quick else 9000, budget_s=20 if quick else 420,
+    hs, stats = T.histories(ctx, g.dump_path, want=300 if quick else 6000, budget_s=20 if quick else 420,
                             exact_leaves=not quick)
     T.require_actions(stats, T.ALL_ACTIONS + T.DELETE_ACTIONS + T.DELETE_COMPACT_ACTIONS)
     consts = T.cfg_constants(gen_cfg)
